@@ -475,6 +475,7 @@ func runC19(k int, rng *Rng) CaseResult {
 	}
 	clockNewCase(clockModeFor(cfg))
 	lockmonReset(true) // a lock leaked by an error path is a hang waiting to happen
+	lockmonLight()
 	installHooks(lockHooks())
 	defer lockmonReset(false)
 	w := NewWorld("C19", rng, cfg, caseDir(k, "c19"))
@@ -566,6 +567,7 @@ func runC19Args(k int, rng *Rng) CaseResult {
 	}
 	clockNewCase(clockModeFor(cfg))
 	lockmonReset(true)
+	lockmonLight()
 	installHooks(lockHooks())
 	defer lockmonReset(false)
 	w := NewWorld("C19", rng, cfg, caseDir(k, "c19a"))
